@@ -458,3 +458,70 @@ def run(ctx):  # noqa: F811
     _run_c21b(ctx)
     r21_7(ctx, ctx.model)
     r21_8(ctx, ctx.model)
+
+
+# ---------------------------------------------------------------------------------------------------------------- R21.9
+def r21_9(ctx, m, rid="R21.9"):
+    from ..util import cfg_of, find_nodes
+    fi = m.func("nifty.cl.minimization.optimize_kl", "optimize_kl")
+    mod = m.module("nifty.cl.minimization.optimize_kl")
+    ctx.rule(rid, "classic optimize_kl: the per-iteration seed list is prepared for ALL iterations from 0 (a resumed run must rebuild "
+                      "the same chain of duplicated seeds), and inside the driver loop nothing that can draw random numbers runs "
+                      "before the iteration's seed is pushed", floor=2)
+    cfg = cfg_of(fi)
+    lists = [n.ast.targets[0].id for n in cfg.nodes if n.kind == "stmt" and isinstance(n.ast, ast.Assign) and isinstance(n.ast.value, ast.Call)
+             and call_name(n.ast.value) == "spawn_sseq" and isinstance(n.ast.targets[0], ast.Name)]
+    if len(lists) != 1:
+        ctx.und(rid, f"{fi.key}::seed list", f"{len(lists)} spawn_sseq lists", fi)
+        return
+    L = lists[0]
+    spawn_arg = [src(n.ast.value.args[0]) for n in cfg.nodes if n.kind == "stmt" and isinstance(n.ast, ast.Assign) and isinstance(n.ast.value, ast.Call)
+                 and call_name(n.ast.value) == "spawn_sseq"][0]
+    prep = [lp for lp in ast.walk(fi.node) if isinstance(lp, ast.For) and any(isinstance(st, ast.Assign) and isinstance(st.targets[0], ast.Subscript)
+                                                                             and src(st.targets[0].value) == L for st in ast.walk(lp))]
+    key = f"{fi.key}::seed preparation covers range(total iterations)"
+    if len(prep) != 1:
+        ctx.und(rid, key, f"{len(prep)} preparation loops", fi)
+    else:
+        it = src(prep[0].iter).replace(" ", "")
+        ctx.check(rid, key, it in (f"range({spawn_arg})", f"range(0,{spawn_arg})"),
+                  f"loop over `{src(prep[0].iter)}`: a resumed run would not rebuild the duplicated seeds of the iterations before its start index", fi, prep[0])
+    # functions of the module that can draw random numbers (transitively)
+    RAND = {"from_random", "current_rng", "draw_sample", "draw_samples", "normal", "standard_normal", "uniform", "integers", "random"}
+    funcs = {f.name: f for f in mod.tree.body if isinstance(f, ast.FunctionDef)}
+    for f in ast.walk(fi.node):
+        if isinstance(f, ast.FunctionDef) and f is not fi.node:
+            funcs[f.name] = f
+    randf = set()
+    changed = True
+    while changed:
+        changed = False
+        for nm, f in funcs.items():
+            if nm in randf:
+                continue
+            for c in ast.walk(f):
+                if isinstance(c, ast.Call) and (call_name(c) in RAND or call_name(c) in randf):
+                    randf.add(nm)
+                    changed = True
+                    break
+    loops = [lp for lp in fi.node.body if isinstance(lp, ast.For) and any(isinstance(c, ast.Call) and call_name(c) == "push_sseq" for st in lp.body for c in ast.walk(st))]
+    key = f"{fi.key}::nothing random runs before push_sseq in the driver loop"
+    if len(loops) != 1:
+        ctx.und(rid, key, f"{len(loops)} driver loops", fi)
+        return
+    before = []
+    for st in loops[0].body:
+        if any(isinstance(c, ast.Call) and call_name(c) == "push_sseq" for c in ast.walk(st)):
+            break
+        before.append(st)
+    bad = [c for st in before for c in ast.walk(st) if isinstance(c, ast.Call) and (call_name(c) in RAND or call_name(c) in randf)]
+    ctx.check(rid, key, not bad, f"`{short(bad[0])}` draws from the generator of the enclosing context (already advanced by earlier iterations), "
+              f"so a resumed run sees different numbers" if bad else f"{len(before)} statement(s) before the push", fi, bad[0] if bad else None)
+
+
+_run_c21c = run
+
+
+def run(ctx):  # noqa: F811
+    _run_c21c(ctx)
+    r21_9(ctx, ctx.model)
